@@ -1090,3 +1090,10 @@ TABLE["C19"] += [
     B("recursive-template-argument-alternative-tried-first", {"Z5"},
       (IP + "type.py", "delimitedList(Type.rule ^ rule, \",\")", "delimitedList(rule ^ Type.rule, \",\")")),
 ]
+_ENUM_MEMO = [
+    (MW, "        file_name = enum.name + '.m'\n", "        key = '::'.join(enum.namespaces()[1:] + [enum.name])\n        if key in self.enum_files:\n            return self.enum_files[key]\n        file_name = enum.name + '.m'\n"),
+    (MW, "        content = enum_template.format(enum.name, enumerators)\n        return file_name, content\n", "        content = enum_template.format(enum.name, enumerators)\n        self.enum_files[key] = (file_name, content)\n        return file_name, content\n"),
+    (MW, "        self.content: List[str] = []\n", "        self.content: List[str] = []\n        self.enum_files = {}\n"),
+]
+TABLE["C10"] += [B("rendered-enum-memoised-by-spelling", {"T8"}, *_ENUM_MEMO)]
+TABLE["C14"] += [B("rendered-enum-memoised-by-spelling", {"R8"}, *_ENUM_MEMO)]
